@@ -60,3 +60,66 @@ Proof.
   - apply (fold_upd_seq f [] l).
   - eapply Permutation_NoDup; [apply Permutation_sym; exact Hp|apply seq_NoDup].
 Qed.
+
+(* ---- the same with a different closure per replica (each replica steps with its own beta / RNG) ---- *)
+Definition updi {A} (g : nat -> A -> A) (l : list A) (i : nat) : list A :=
+  match nth_error l i with Some x => set_nth l i (g i x) | None => l end.
+
+Fixpoint mapi_from {A} (k : nat) (g : nat -> A -> A) (l : list A) : list A :=
+  match l with [] => [] | x :: r => g k x :: mapi_from (S k) g r end.
+
+Lemma updi_comm {A} (g : nat -> A -> A) (l : list A) i j : i <> j -> updi g (updi g l i) j = updi g (updi g l j) i.
+Proof.
+  intros Hne. unfold updi.
+  assert (Hij : Nat.eqb i j = false) by (apply Nat.eqb_neq; exact Hne).
+  assert (Hji : Nat.eqb j i = false) by (apply Nat.eqb_neq; lia).
+  destruct (nth_error l i) as [x|] eqn:Ei; destruct (nth_error l j) as [y|] eqn:Ej;
+    rewrite ?nth_error_set_nth, ?Hij, ?Hji, ?Ei, ?Ej; try reflexivity.
+  now apply set_nth_set_nth_comm.
+Qed.
+
+Lemma fold_updi_perm {A} (g : nat -> A -> A) s1 s2 : Permutation s1 s2 -> NoDup s1 ->
+  forall l : list A, fold_left (updi g) s1 l = fold_left (updi g) s2 l.
+Proof.
+  induction 1 as [|x s1 s2 Hp IH|x y s|s1 s2 s3 H1 IH1 H2 IH2]; intros Hnd l; cbn [fold_left].
+  - reflexivity.
+  - inversion Hnd; subst. now apply IH.
+  - inversion Hnd as [|? ? Hx Hnd']; subst. f_equal. apply updi_comm. intros ->. apply Hx. now left.
+  - rewrite IH1 by exact Hnd. apply IH2. eapply Permutation_NoDup; eauto.
+Qed.
+
+Lemma fold_updi_seq {A} (g : nat -> A -> A) : forall (l pre : list A),
+  fold_left (updi g) (seq (length pre) (length l)) (pre ++ l) = pre ++ mapi_from (length pre) g l.
+Proof.
+  induction l as [|x l IH]; intros pre; cbn [length seq fold_left mapi_from]; [reflexivity|].
+  unfold updi at 2. rewrite nth_error_app2 by lia. rewrite Nat.sub_diag. cbn [nth_error].
+  assert (E : set_nth (pre ++ x :: l) (length pre) (g (length pre) x) = (pre ++ [g (length pre) x]) ++ l).
+  { clear IH. generalize (g (length pre) x) as y. intros y. induction pre as [|h t IHp]; cbn; [reflexivity|]. now rewrite IHp. }
+  rewrite E. specialize (IH (pre ++ [g (length pre) x])). rewrite app_length in IH. cbn [length] in IH.
+  rewrite Nat.add_1_r in IH. rewrite IH. rewrite <- app_assoc. reflexivity.
+Qed.
+
+(* any schedule that runs every replica's own closure exactly once yields the index-wise result *)
+Theorem any_schedule_same_result_indexed {A} (g : nat -> A -> A) (l : list A) (sched : list nat) :
+  Permutation sched (seq 0 (length l)) -> fold_left (updi g) sched l = mapi_from 0 g l.
+Proof.
+  intros Hp. rewrite (fold_updi_perm g sched (seq 0 (length l)) Hp).
+  - apply (fold_updi_seq g l []).
+  - eapply Permutation_NoDup; [apply Permutation_sym; exact Hp|apply seq_NoDup].
+Qed.
+
+Lemma mapi_from_length {A} (g : nat -> A -> A) (l : list A) : forall k, length (mapi_from k g l) = length l.
+Proof. induction l as [|x l IH]; intros k; cbn; [reflexivity|now rewrite IH]. Qed.
+
+(* a whole run: any number of parallel phases (closures may differ from phase to phase), each under
+   its own arbitrary schedule, ends in the same vector as the serial in-order execution *)
+Theorem any_schedules_same_run {A} : forall (phases : list ((nat -> A -> A) * list nat)) (l : list A),
+  Forall (fun ph => Permutation (snd ph) (seq 0 (length l))) phases ->
+  fold_left (fun v ph => fold_left (updi (fst ph)) (snd ph) v) phases l
+  = fold_left (fun v ph => mapi_from 0 (fst ph) v) phases l.
+Proof.
+  induction phases as [|[g s] phases IH]; intros l H; cbn [fold_left fst snd]; [reflexivity|].
+  inversion H as [|? ? Hs Hr]; subst. cbn [snd] in Hs.
+  rewrite (any_schedule_same_result_indexed g l s Hs). apply IH.
+  rewrite mapi_from_length. exact Hr.
+Qed.
